@@ -467,27 +467,43 @@ theorem keysEq_three (l1 l2 l3 r1 r2 r3 : VExpr) (ρ : Env) :
   simp [keysEq, bTrue]
 
 theorem psound_hash_join_on_one_eq : pstmt_hash_join_on_one_eq := by
-  intro t l1 r1 L R
-  intros
-  unfold hashjoin RelEq
+  intro t l1 r1 L R hd hwl hwr hil hir
+  have hl := readsWithin_of_union_indep l1 L.owned R.owned hwl hil
+  have hr := readsWithin_of_union_indep r1 R.owned L.owned (readsWithin_union_comm _ _ _ hwr) hir
+  rw [hashjoin_unmasked t bTrue [l1] [r1] L R (by simpa using hl) (by simpa using hr)]
+  unfold RelEq
   rw [join_of_holds_eq t (bEq l1 r1) _ L R]
   intro ρ
   rw [holds_bEq]
   simp [holds, keysEq_one, bTrue]
 
 theorem psound_hash_join_on_two_eq : pstmt_hash_join_on_two_eq := by
-  intro t l1 r1 l2 r2 L R
-  intros
-  unfold hashjoin RelEq
+  intro t l1 r1 l2 r2 L R hd hw1 hv1 hw2 hv2 hi1 hi2 hj1 hj2
+  have hl1 := readsWithin_of_union_indep l1 L.owned R.owned hw1 hi1
+  have hl2 := readsWithin_of_union_indep l2 L.owned R.owned hw2 hi2
+  have hr1 := readsWithin_of_union_indep r1 R.owned L.owned (readsWithin_union_comm _ _ _ hv1) hj1
+  have hr2 := readsWithin_of_union_indep r2 R.owned L.owned (readsWithin_union_comm _ _ _ hv2) hj2
+  rw [hashjoin_unmasked t bTrue [l1, l2] [r1, r2] L R
+    (by intro e he; simp at he; rcases he with rfl | rfl <;> assumption)
+    (by intro e he; simp at he; rcases he with rfl | rfl <;> assumption)]
+  unfold RelEq
   rw [join_of_holds_eq t (bAnd (bEq l1 r1) (bEq l2 r2)) _ L R]
   intro ρ
   rw [holds_bAnd, holds_bEq, holds_bEq]
   simp [holds, keysEq_two, bTrue]
 
 theorem psound_hash_join_on_three_eq : pstmt_hash_join_on_three_eq := by
-  intro t l1 r1 l2 r2 l3 r3 L R
-  intros
-  unfold hashjoin RelEq
+  intro t l1 r1 l2 r2 l3 r3 L R hd hw1 hv1 hw2 hv2 hw3 hv3 hi1 hi2 hi3 hj1 hj2 hj3
+  have hl1 := readsWithin_of_union_indep l1 L.owned R.owned hw1 hi1
+  have hl2 := readsWithin_of_union_indep l2 L.owned R.owned hw2 hi2
+  have hl3 := readsWithin_of_union_indep l3 L.owned R.owned hw3 hi3
+  have hr1 := readsWithin_of_union_indep r1 R.owned L.owned (readsWithin_union_comm _ _ _ hv1) hj1
+  have hr2 := readsWithin_of_union_indep r2 R.owned L.owned (readsWithin_union_comm _ _ _ hv2) hj2
+  have hr3 := readsWithin_of_union_indep r3 R.owned L.owned (readsWithin_union_comm _ _ _ hv3) hj3
+  rw [hashjoin_unmasked t bTrue [l1, l2, l3] [r1, r2, r3] L R
+    (by intro e he; simp at he; rcases he with rfl | rfl | rfl <;> assumption)
+    (by intro e he; simp at he; rcases he with rfl | rfl | rfl <;> assumption)]
+  unfold RelEq
   rw [join_of_holds_eq t (bAnd (bEq l1 r1) (bAnd (bEq l2 r2) (bEq l3 r3))) _ L R]
   intro ρ
   rw [holds_bAnd, holds_bAnd, holds_bEq, holds_bEq, holds_bEq]
@@ -495,62 +511,65 @@ theorem psound_hash_join_on_three_eq : pstmt_hash_join_on_three_eq := by
 
 /-- `(join inner (and (= l r) cond) L R) => (filter cond (hashjoin inner true [l] [r] L R))` -/
 theorem psound_hash_join_on_one_eq_1 : pstmt_hash_join_on_one_eq_1 := by
-  intro l1 r1 c L R
-  intros
-  unfold hashjoin
+  intro l1 r1 c L R hd hwl hwr hwc hil hir
+  have hl := readsWithin_of_union_indep l1 L.owned R.owned hwl hil
+  have hr := readsWithin_of_union_indep r1 R.owned L.owned (readsWithin_union_comm _ _ _ hwr) hir
+  rw [hashjoin_unmasked .inner bTrue [l1] [r1] L R (by simpa using hl) (by simpa using hr)]
   simp only [RelEq, Rel.out, filter, join, joinRows, matchesL]
   congr 1
   rw [List.filter_flatMap]
   apply flatMap_congr'
-  intro l
-  intros
+  intro l _
   rw [List.filter_filter]
   apply List.filter_congr
-  intro ρ
-  intros
+  intro ρ _
   rw [holds_bAnd, holds_bEq]
   simp [holds, keysEq_one, bTrue, Bool.and_comm]
 
 theorem psound_hash_join_on_one_eq_2 : pstmt_hash_join_on_one_eq_2 := by
-  intro l1 r1 c L R
-  intros
-  unfold hashjoin RelEq
+  intro l1 r1 c L R hd hwl hwr hwc hil hir
+  have hl := readsWithin_of_union_indep l1 L.owned R.owned hwl hil
+  have hr := readsWithin_of_union_indep r1 R.owned L.owned (readsWithin_union_comm _ _ _ hwr) hir
+  rw [hashjoin_unmasked .semi c [l1] [r1] L R (by simpa using hl) (by simpa using hr)]
+  unfold RelEq
   rw [join_of_holds_eq .semi (bAnd (bEq l1 r1) c) _ L R]
   intro ρ
   rw [holds_bAnd, holds_bEq]
   simp [holds, keysEq_one]
 
 theorem psound_hash_join_on_one_eq_3 : pstmt_hash_join_on_one_eq_3 := by
-  intro l1 r1 c L R
-  intros
-  unfold hashjoin RelEq
+  intro l1 r1 c L R hd hwl hwr hwc hil hir
+  have hl := readsWithin_of_union_indep l1 L.owned R.owned hwl hil
+  have hr := readsWithin_of_union_indep r1 R.owned L.owned (readsWithin_union_comm _ _ _ hwr) hir
+  rw [hashjoin_unmasked .anti c [l1] [r1] L R (by simpa using hl) (by simpa using hr)]
+  unfold RelEq
   rw [join_of_holds_eq .anti (bAnd (bEq l1 r1) c) _ L R]
   intro ρ
   rw [holds_bAnd, holds_bEq]
   simp [holds, keysEq_one]
 
 theorem psound_hash_join_on_one_eq_rev : pstmt_hash_join_on_one_eq_rev := by
-  intro t c l1 r1 L R
-  intros
-  unfold hashjoin RelEq
+  intro t c l1 r1 L R hd hwc hl hr
+  rw [hashjoin_unmasked t c [l1] [r1] L R hl hr]
+  unfold RelEq
   rw [join_of_holds_eq t _ (bAnd c (bEq l1 r1)) L R]
   intro ρ
   rw [holds_bAnd, holds_bEq]
   simp [holds, keysEq_one, Bool.and_comm]
 
 theorem psound_hash_join_on_two_eq_rev : pstmt_hash_join_on_two_eq_rev := by
-  intro t c l1 l2 r1 r2 L R
-  intros
-  unfold hashjoin RelEq
+  intro t c l1 l2 r1 r2 L R hd hwc hl hr
+  rw [hashjoin_unmasked t c [l1, l2] [r1, r2] L R hl hr]
+  unfold RelEq
   rw [join_of_holds_eq t _ (bAnd c (bAnd (bEq l1 r1) (bEq l2 r2))) L R]
   intro ρ
   rw [holds_bAnd, holds_bAnd, holds_bEq, holds_bEq]
   simp [holds, keysEq_two, Bool.and_comm]
 
 theorem psound_hash_join_on_three_eq_rev : pstmt_hash_join_on_three_eq_rev := by
-  intro t c l1 l2 l3 r1 r2 r3 L R
-  intros
-  unfold hashjoin RelEq
+  intro t c l1 l2 l3 r1 r2 r3 L R hd hwc hl hr
+  rw [hashjoin_unmasked t c [l1, l2, l3] [r1, r2, r3] L R hl hr]
+  unfold RelEq
   rw [join_of_holds_eq t _ (bAnd c (bAnd (bEq l1 r1) (bAnd (bEq l2 r2) (bEq l3 r3)))) L R]
   intro ρ
   rw [holds_bAnd, holds_bAnd, holds_bAnd, holds_bEq, holds_bEq, holds_bEq]
